@@ -99,6 +99,14 @@ fn divisor(max: u64) -> BoxedStrategy<u64> {
     .boxed()
 }
 
+/// partition counts for the public path (1..=65536)
+fn divisor_public() -> BoxedStrategy<u64> {
+    let pow = (0u32..=16).prop_map(|k| 1u64 << k);
+    let pow_pm = ((1u32..=16), prop::bool::ANY).prop_map(|(k, up)| if up { (1u64 << k) + 1 } else { (1u64 << k) - 1 });
+    let three = (0u32..=14).prop_map(|k| 3u64 << k);
+    prop_oneof![1 => pow, 2 => pow_pm, 1 => three, 2 => 1u64..=64, 4 => 1u64..=65_536].prop_map(|d| d.clamp(1, 65_536)).boxed()
+}
+
 fn hash_for(d: u64) -> BoxedStrategy<u64> {
     let fixed = prop::sample::select(vec![
         0u64,
@@ -274,12 +282,12 @@ impl Property for C11 {
         let hook = divisor(u64::MAX)
             .prop_flat_map(move |d| prop::collection::vec(hash_for(d), 1..=max_h).prop_map(move |hs| Case { path: Path::Hook, d, hs, cut: 0 }));
         let max_rows = tier.pick(512usize, 2048);
-        let public = (divisor(65_536), prop::collection::vec(prop_oneof![any::<u64>(), 0u64..64], 0..=max_rows), prop_oneof![Just(0usize), 1usize..200])
+        let public = (divisor_public(), prop::collection::vec(prop_oneof![any::<u64>(), 0u64..64], 0..=max_rows), prop_oneof![Just(0usize), 1usize..200])
             .prop_map(|(d, hs, cut)| Case { path: Path::Public, d, hs, cut });
         prop_oneof![60 => hook, 1 => public].boxed()
     }
     fn budget(&self, tier: Tier) -> Budget {
-        Budget::new(tier.pick(30_000, 1_500_000), tier.pick(8, 16)).min_nontrivial(tier.pick(5_000, 100_000))
+        Budget::new(tier.pick(60_000, 1_500_000), tier.pick(8, 16)).min_nontrivial(tier.pick(10_000, 100_000))
     }
     fn rule(&self) -> String {
         "a case is one divisor (boundary-biased over 1..=2^64-1) with up to 64/256 boundary-biased hashes, each checked together with the neighbouring multiples q*d, q*d-1, q*d+d-1 \
